@@ -2,8 +2,15 @@
 
 proof:  Props/C02.lean (encode_refframe, wire_refframe, encodeWire_refframe, encodeWire_refused_unchanged)
 tie:    model encode / encodeWire vs Codec.encode / AsyncFIXConnection.send_msg (bytes at a fake transport)
-oracle: independent frame parser `ref_parse` on every byte string the real code produces, incl. all
-        transport writes of scripted session histories (logon, heartbeats, resend replays, gap fills, logout)
+oracle: independent frame parser `ref_parse_strict` on every byte string the real code produces, incl. all
+        transport writes of scripted session histories (logon, heartbeats, resend replays - also repeated and
+        overlapping ones -, gap fills, logout, reconnect; initiator and acceptor), ONE write call per frame, and the
+        transport's byte stream cut into frames by BodyLength while several coroutines send concurrently
+
+dimensions (round 4): value classes `codec_common.UNICODE_CLASSES` (combining sequences, singleton / compatibility
+characters, case-mapping specials, surrogates, NUL / controls, utf-8 vs latin-1 width, format characters) in values,
+comp ids and message types; sizes `codec_common.FRAME_SIZES` (4 KiB, 64 KiB +-1, 128 KiB +-1, 1 MiB; thousands of
+group items / fields); write-call granularity and interleaving at drain(); longer histories.
 """
 from __future__ import annotations
 
@@ -22,15 +29,40 @@ ASSUMPTIONS = [
     "transport bytes by harness/bridge_check.py on sampled steps of the real connection every run",
 ]
 MODELLED_NOT_VERIFIED = [
+    "C02 sizes: the theorems hold for messages of every size; the model-vs-code correspondence runs frames up to 128 KiB "
+    "(quick) / 1 MiB (thorough) through the compiled model, the implementation-only oracle frames up to 1 MiB",
+    "C02 transport: the model hands a frame to the transport as ONE effect (`Effect.write` / the result of encodeWire); that the "
+    "code issues exactly one `write` call per frame and that frames of concurrently sending coroutines are not interleaved "
+    "is covered by correspondence (`err writes=n`) and the oracle's byte-stream splitter only - coroutine scheduling is C14's model",
+    "C02 value classes: Lean `String` cannot hold lone surrogates; surrogate code points are exercised through the codec "
+    "model (code-point lists) and the oracle, not through the session-model bridge",
     "C02: Codec.encode/_addTag and the latin-1 step of send_msg are hand-modelled (Model/Codec/Encode.lean) and compared "
     "byte for byte with the implementation on generated messages (all 29 group tags, nesting, non-ASCII values, every encoding mode)",
 ]
 
 NOW = "20240101-00:00:00.000"
-NONASCII = ["\x7f", "\x80", "\xe9", "\xff", "Ā", "€", "\U0001f600", "h\xe9llo€"]
+NONASCII = ["\x7f", "\x80", "\xe9", "\xff", "\u0100", "\u20ac", "\U0001f600", "h\xe9llo\u20ac"]
+STATS = {}      # value-class / size distribution of the generated inputs (printed into the evidence)
 
 
-def gen_case(rng, i):
+def _count(key):
+    STATS[key] = STATS.get(key, 0) + 1
+
+
+def special(rng, surrogates=True):
+    """non-ASCII text: the legacy pool or one of the Unicode value classes (a comp id with a lone surrogate is refused
+    by the connection's constructor - SQLite text - before anything could be sent: not generated there)"""
+    if rng.random() < 0.35:
+        _count("value:legacy")
+        return rng.choice(NONASCII)
+    cls, t = K.gen_special_value(rng, surrogates)
+    _count("value:" + cls)
+    return t
+
+
+def gen_case(rng, i, wide=False):
+    """`wide` (C02's own runs): Unicode value classes also in the comp ids and the message type (C01 shares this
+    generator and judges round trips of messages whose type / target are latin-1)"""
     keep = rng.random() < 0.25
     grp = None
     tbl = sorted(K.table())
@@ -70,10 +102,21 @@ def gen_case(rng, i):
         j = rng.randrange(len(tree))
         if tree[j][0] == "L" and tree[j][1] not in ("34", "43"):
             tree = list(tree)
-            tree[j] = ("L", tree[j][1], tree[j][2] + rng.choice(NONASCII))
+            tree[j] = ("L", tree[j][1], tree[j][2] + special(rng))
     if rng.random() < 0.05:
         tree = tree + [("E", "9001")]          # RepeatingTagError value: encode raises after allocating
-    sender = rng.choice(["SND", "S\xe9", "A=B", "S€"]) if rng.random() < 0.2 else "SND"
+    sender = rng.choice(["SND", "S\xe9", "A=B", "S\u20ac"]) if rng.random() < 0.2 else "SND"
+    target = "TGT"
+    r = rng.random() if wide else 1.0
+    if r < 0.04:
+        sender = "S" + special(rng, False)
+        _count("where:sender")
+    elif r < 0.08:
+        target = special(rng, False) + "T"
+        _count("where:target")
+    elif r < 0.11:
+        mtype = mtype + special(rng)
+        _count("where:mtype")
     nxt = rng.choice([1, 2, 9, 10, 99, 100, 12345, 2**31, 2**63 + 5])
     # one node per top-level tag (a container cannot hold two), then the encoding mode is read off the final
     # message by the encoder's documented rule - the generator's intention above is only a bias
@@ -84,7 +127,30 @@ def gen_case(rng, i):
         seen.add(nd[1])
         dedup.append(nd)
     tree = dedup
-    return (mtype, tree, sender, "TGT", nxt, raw, NOW), classify_mode(mtype, tree, raw)
+    return (mtype, tree, sender, target, nxt, raw, NOW), classify_mode(mtype, tree, raw)
+
+
+def size_specs(rng, tier, model=True):
+    """specs for `K.sized_case`: frames at the sizes of K.FRAME_SIZES with ASCII / latin-1 / framing-like filler,
+    a non-representable tail at size (must be refused, not truncated), thousands of group items / plain fields.
+    `model`: the list that also runs through the compiled Lean model (quick tier: up to 64 KiB + 1, the driver needs
+    about a second per 64 KiB); the implementation-only oracle always gets every size up to 1 MiB."""
+    full = tier == "thorough" or not model
+    big = [n for n in K.FRAME_SIZES if n < (1 << 20) and (full or n <= 65537)]
+    specs = [{"shape": "value", "frame_len": n, "fill": rng.choice(["x", "\xe9", "=", "\xff"]),
+              "mtype": rng.choice(["B", "D", "8"]), "tag": rng.choice(["58", "96", "355"]), "seq": rng.choice([7, 99999, 2**40])}
+             for n in big]
+    specs.append({"shape": "value", "frame_len": rng.choice([65536, 65537] + ([131073] if full else [])),
+                  "tail": rng.choice(["\u20ac", "e\u0301", "\u212a"])})
+    specs.append({"shape": "items", "group": "453", "n": rng.choice([1500, 3000]) if full else 1000})
+    specs.append({"shape": "fields", "n": rng.choice([1000, 2000]) if full else 700})
+    if full:
+        specs.append({"shape": "value", "frame_len": 1 << 20, "fill": "x"})
+        if tier == "thorough":
+            specs += [{"shape": "value", "frame_len": n + d, "fill": "y"} for n in (65536, 131072, 262144) for d in (-2, 2)]
+    for sp in specs:
+        _count("size:%s:%s" % (sp["shape"], sp.get("frame_len", sp.get("n"))))
+    return specs
 
 
 def classify_mode(mtype, tree, raw):
@@ -103,14 +169,19 @@ def classify_mode(mtype, tree, raw):
 
 
 class _W:
-    def __init__(self):
+    """fake transport: records every write() call; drain() yields to the event loop `yields` times (a real
+    StreamWriter.drain() suspends once the buffer is above the high-water mark)"""
+
+    def __init__(self, yields=1):
         self.out = []
+        self.yields = yields
 
     def write(self, b):
         self.out.append(bytes(b))
 
     async def drain(self):
-        pass
+        for _ in range(self.yields):
+            await asyncio.sleep(0)
 
     def close(self):
         pass
@@ -161,14 +232,21 @@ def impl_send(case):
     return "ok %s %s" % (C.cp(c.w.out[0]), c._session.next_num_out), c.w.out
 
 
+def send_line(case):
+    mtype, tree, sender, target, nxt, raw, now = case
+    return "codec.send %s %s %s %s %d %s" % (C.cp(mtype), K.tok_tree(tree), C.cp(sender), C.cp(target), nxt, C.cp(now))
+
+
 def correspondence(ctx):
     drv = C.Driver()
     impl = K.Impl()
+    STATS.clear()
     n = ctx.n(2500, 25000)
-    cases = [gen_case(ctx.rng, i) for i in range(n)]
-    lines, exp, kinds = [], [], {}
+    cases = [gen_case(ctx.rng, i, wide=True) for i in range(n)]
+    lines, exp, kinds, src = [], [], {}, []
     for (case, mode) in cases:
         lines.append(K.enc_line(*case))
+        src.append(("case", case))
         r, _ = impl.encode(*case)
         exp.append(r)
         kinds[mode + ":" + r.split()[0] + (":" + r.split()[1] if r.startswith("err") else "")] = kinds.get(
@@ -176,19 +254,38 @@ def correspondence(ctx):
     # send_msg path (no raw mode there)
     scases = [c for (c, mode) in cases if mode != "raw" and c[4] < 2**62][: ctx.n(800, 8000)]  # SQLite INTEGER: counters < 2^63
     for case in scases:
-        mtype, tree, sender, target, nxt, raw, now = case
-        lines.append("codec.send %s %s %s %s %d %s" % (C.cp(mtype), K.tok_tree(tree), C.cp(sender), C.cp(target), nxt, C.cp(now)))
+        lines.append(send_line(case))
+        src.append(("case", case))
         r, _ = impl_send(case)
         exp.append(r)
         k = "send:" + " ".join(r.split()[:2] if r.startswith("err") else r.split()[:1])
         kinds[k] = kinds.get(k, 0) + 1
+    # size dimension: both paths
+    for sp in size_specs(ctx.rng, ctx.tier):
+        case = K.sized_case(sp)
+        pairs = [(send_line(case), impl_send(case)[0])]
+        if ctx.tier == "thorough" or sp.get("frame_len") == 65536:
+            pairs.append((K.enc_line(*case), impl.encode(*case)[0]))
+        for line, r in pairs:
+            lines.append(line)
+            src.append(("sized", sp))
+            exp.append(r)
+            k = "sized:" + " ".join(r.split()[:2] if r.startswith("err") else r.split()[:1])
+            kinds[k] = kinds.get(k, 0) + 1
     out = drv.batch(lines)
-    dis = [{"input": l[:2000], "model": o[:600], "impl": e[:600]} for l, o, e in zip(lines, out, exp) if o != e]
+    dis, first = [], {"cases": [], "sized": [], "bridge": []}
+    for l, o, e, (kind, what) in zip(lines, out, exp, src):
+        if o != e:
+            dis.append({"input": l[:2000], "model": o[:600], "impl": e[:600]})
+            (first["cases"] if kind == "case" else first["sized"]).append(what)
     # session-model write effects rendered to bytes == bytes at the real transport (bridge to C02Hist)
     from . import bridge_check
-    br = bridge_check.run(ctx.n(300, 1500), ctx.seed, ctx.rng)
+    br = bridge_check.run(ctx.n(300, 1500), ctx.seed, ctx.rng, tier=ctx.tier)
     for d in br["differences"]:
         dis.append({"input": str(d.get("input"))[:2000], "model": str(d.get("model"))[:600], "impl": str(d.get("impl"))[:600], "level": "render"})
+        if d.get("case") is not None:
+            first["bridge"].append(d["case"])
+    ctx.c02_first = first          # the oracle replays the disagreeing inputs first
     kinds["bridge:frames"] = br["frames"]
     distinct = len({l for l in lines})
     groups_hit = set()
@@ -200,36 +297,81 @@ def correspondence(ctx):
         "evaluations": len(lines) + br["frames"],
         "distinct_nontrivial": distinct,
         "rule": "messages generated over the implementation's own repeating-group table (every group tag forced at least 3 times, "
-        "1..3 items, optional members, nesting to depth 3), values incl. framing-like text and non-ASCII / non-latin-1 characters, "
-        "modes allocate / PossDup / SequenceReset / raw, counters up to 2^63; each through Codec.encode and (non-raw) through the real "
-        "send_msg with a fake transport; distinct = distinct request lines (all non-trivial: every one encodes a message)",
+        "1..3 items, optional members, nesting to depth 3), values incl. framing-like text and the Unicode value classes of "
+        "codec_common.UNICODE_CLASSES (also in comp ids and message types), modes allocate / PossDup / SequenceReset / raw, counters "
+        "up to 2^63, frames of 4 KiB .. 128 KiB (+-1 around 64 KiB multiples; 1 MiB in the thorough tier) and thousands of items / fields; "
+        "each through Codec.encode and (non-raw) through the real send_msg with a fake transport whose drain() yields; distinct = "
+        "distinct request lines (all non-trivial: every one encodes a message); plus the session-model bridge (bridge_check: single "
+        "steps incl. journals that already hold replayed copies, and multi-step chains with repeated ResendRequests)",
         "samples": [{"request": lines[i][:300], "reply": out[i][:300]} for i in (0, len(lines) // 2, len(lines) - 1)],
         "exhaustive": False,
-        "distribution": {"outcomes": kinds, "group_tags_hit": len(groups_hit), "group_tags_total": len(K.table())},
+        "distribution": {"outcomes": kinds, "group_tags_hit": len(groups_hit), "group_tags_total": len(K.table()),
+                         "value_classes_and_sizes": dict(sorted(STATS.items())), "bridge": br.get("kinds", {})},
         "disagreements": dis,
     }
 
 
 # ------------------------------------------------------------------ oracle
+def case_input(case):
+    return [case[0], K.tok_tree(case[1]), case[2], case[3], case[4], case[5]]
+
+
 def classify(raw: bytes, where: str):
-    fields, why = K.ref_parse(raw)
+    fields, why = K.ref_parse_strict(raw)
     if fields is None:
-        return {"signature": f"C02-illformed-frame:{where}:{why}", "what": f"frame rejected by the reference parser: {why}",
-                "input": {"where": where, "frame": C.cp(raw)}, "observed": why}
+        why_sig = why.split(" occurs")[0] if "occurs" in why else why
+        return {"signature": f"C02-illformed-frame:{where}:{why_sig}", "what": f"frame rejected by the reference parser: {why}",
+                "input": {"where": where, "frame": C.cp(raw[:4000])}, "observed": why}
     return None
 
 
-def history(rng):
-    """one scripted session history on a real initiator connection; returns all transport writes"""
-    from asyncfix import FIXMessage, FMsg
-    from asyncfix.connection import ConnectionState
+def check_case(impl, case, inp, failures):
+    """implementation-only judgement of one message: Codec.encode result and send_msg transport writes"""
+    mode = classify_mode(case[0], case[1], case[5])
+    n_frames = 0
+    r, f = impl.encode(*case)
+    if f is not None:
+        try:
+            raw = f.encode("latin-1")
+        except UnicodeEncodeError:
+            raw = None
+        if raw is not None:
+            n_frames += 1
+            x = classify(raw, "encode")
+            if x:
+                x["input"].update(inp)
+                failures.append(x)
+    if mode != "raw" and case[4] < 2**62:
+        r2, writes = impl_send(case)
+        for w in writes:
+            n_frames += 1
+            x = classify(w, "send_msg")
+            if x:
+                x["input"].update(inp)
+                failures.append(x)
+        if r2.startswith("ok") is False and r2.startswith("err writes="):
+            failures.append({"signature": "C02-frame-not-one-write:send_msg", "what": "send_msg handed one frame to the transport in "
+                             "%s write() calls" % r2.split("=")[1], "input": dict(inp, where="send_msg"), "observed": r2[:80]})
+        unrepresentable = any(not K.fits_latin1(x) for x in [case[0], case[2], case[3]]) or any(
+            not K.fits_latin1(v) for _, v in K.flatten_values(case[1]))
+        if unrepresentable and not r2.startswith("err"):
+            failures.append({"signature": "C02-unrepresentable-not-refused", "what": "text outside latin-1 was not refused but transmitted",
+                             "input": dict(inp, where="send_msg"), "observed": r2[:200]})
+        elif f is not None and any(ord(ch) > 255 for ch in f):
+            # not representable: must be refused, number given back
+            if not r2.startswith("err EncodingError %d" % case[4]):
+                failures.append({"signature": "C02-unrepresentable-not-refused", "what": "non latin-1 text was not refused "
+                                 "with EncodingError / number not given back", "input": dict(inp, where="send_msg"), "observed": r2[:200]})
+    return n_frames
+
+
+def peer_tools(sender="SND", target="TGT"):
+    from asyncfix import FIXMessage
     from asyncfix.codec import Codec
     from asyncfix.journaler import Journaler
 
-    c = make_conn()
-    c._connection_state = ConnectionState.NETWORK_CONN_ESTABLISHED
     peer_j = Journaler()
-    peer_s = peer_j.create_or_load("SND", "TGT")
+    peer_s = peer_j.create_or_load(sender, target)
     pc = Codec(K.proto())
 
     def frame(mtype, tags=None, seq=None):
@@ -242,27 +384,63 @@ def history(rng):
         d, _, _ = pc.decode(raw)
         return d, raw
 
-    async def run():
-        await c.send_msg(FIXMessage(FMsg.LOGON, {98: 0, 108: 30}))
-        d, raw = frame(FMsg.LOGON, {98: 0, 108: 30})
-        await c._process_message(d, raw)
-        for _ in range(rng.randint(3, 12)):
+    return peer_s, frame
+
+
+def history(hseed):
+    """one scripted session history on a real connection (initiator or acceptor), derived from `hseed` alone;
+    returns all transport writes.  Steps: application sends (incl. Unicode value classes), TestRequests, ResendRequests -
+    fresh, REPEATED over the same range, overlapping, after a previous resend -, sequence gaps, test requests, logout, and
+    (sometimes) a reconnect of the same object followed by a second logon and more traffic."""
+    import random
+    from asyncfix import FIXMessage, FMsg
+    from asyncfix.connection import ConnectionState
+
+    rng = random.Random("c02-history:%s" % hseed)
+    c = make_conn()
+    c.w.yields = rng.choice([0, 1, 1, 2])
+    c._connection_state = ConnectionState.NETWORK_CONN_ESTABLISHED
+    peer_s, frame = peer_tools()
+    acceptor = rng.random() < 0.35
+    last_resend = [None]
+
+    async def logon():
+        if acceptor:
+            d, raw = frame(FMsg.LOGON, {98: 0, 108: 30})
+            await c._process_message(d, raw)
+        else:
+            await c.send_msg(FIXMessage(FMsg.LOGON, {98: 0, 108: 30}))
+            d, raw = frame(FMsg.LOGON, {98: 0, 108: 30})
+            await c._process_message(d, raw)
+
+    async def traffic(k):
+        for _ in range(k):
             r = rng.random()
             try:
-                if r < 0.4:
+                if r < 0.35:
                     mt, tree = K.gen_wf_msg(rng)
                     if rng.random() < 0.3 and tree and tree[0][0] == "L":
-                        tree[0] = ("L", tree[0][1], tree[0][2] + rng.choice(NONASCII))
+                        tree[0] = ("L", tree[0][1], tree[0][2] + special(rng))
+                    if rng.random() < 0.1:
+                        tree.append(("L", "122", "20231231-23:59:59"))      # application-set OrigSendingTime
                     await c.send_msg(K.build_container(tree, mtype=mt))
-                elif r < 0.55:
+                elif r < 0.45:
                     d, raw = frame(FMsg.TESTREQUEST, {112: "T%d" % rng.randint(1, 9)})
                     await c._process_message(d, raw)
                 elif r < 0.75:
-                    b = rng.randint(1, max(1, c._session.next_num_out))
-                    e = rng.choice([0, 0, b, b + 1])
+                    hi = max(1, c._session.next_num_out - 1)
+                    if last_resend[0] is not None and rng.random() < 0.6:
+                        b, e = last_resend[0]                     # the peer lost the replay: same range again …
+                        if rng.random() < 0.4:                    # … or an overlapping one
+                            b = max(1, b + rng.choice([-1, 0, 1]))
+                            e = 0 if e == 0 else e + rng.choice([0, 1, 2])
+                    else:
+                        b = rng.randint(1, hi)
+                        e = rng.choice([0, 0, b, b + 1, hi])
+                    last_resend[0] = (b, e)
                     d, raw = frame(FMsg.RESENDREQUEST, {7: b, 16: e})
                     await c._process_message(d, raw)
-                elif r < 0.85:
+                elif r < 0.83:
                     d, raw = frame(FMsg.HEARTBEAT, {}, seq=peer_s.next_num_out + 3)   # gap -> ResendRequest
                     await c._process_message(d, raw)
                     peer_s.next_num_out = c._session.next_num_in
@@ -271,80 +449,187 @@ def history(rng):
                     await c.send_test_req() if c._test_req_id is None else None
             except Exception:  # noqa  (refusals are fine: only what reaches the transport matters)
                 pass
+
+    async def run():
         try:
-            await c.disconnect(ConnectionState.DISCONNECTED_WCONN_TODAY, logout_message="bye")
+            await logon()
         except Exception:  # noqa
             pass
+        await traffic(rng.randint(3, 14))
+        try:
+            await c.disconnect(ConnectionState.DISCONNECTED_WCONN_TODAY, logout_message=rng.choice(["bye", "", "r\xe9son"]))
+        except Exception:  # noqa
+            pass
+        if rng.random() < 0.3:
+            # the same connection object comes up again (new transport session, journal and counters continue)
+            c._socket_writer = c.w
+            c._socket_reader = object()
+            c._connection_state = ConnectionState.NETWORK_CONN_ESTABLISHED
+            try:
+                await logon()
+            except Exception:  # noqa
+                pass
+            await traffic(rng.randint(2, 8))
 
     asyncio.run(run())
     return c.w.out
 
 
+def check_history(hseed, failures):
+    writes = history(hseed)
+    for w in writes:
+        x = classify(w, "history")
+        if x:
+            x["input"]["history_seed"] = hseed
+            failures.append(x)
+    frames, why = K.split_stream(b"".join(writes))
+    if why is not None and not any(f["input"].get("history_seed") == hseed for f in failures):
+        failures.append({"signature": "C02-stream-not-frames:history", "what": "the transport's byte stream is not a sequence of "
+                         "well-formed frames: " + why, "input": {"history_seed": hseed}, "observed": why})
+    return len(writes)
+
+
+def interleave(iseed):
+    """several coroutines send on ONE connection at the same time (application tasks, as the library's own heartbeat
+    task would); drain() yields.  Message sizes 10 B .. 200 KiB.  Returns (writes, number of successful sends)."""
+    import random
+    from asyncfix import FIXMessage
+
+    rng = random.Random("c02-interleave:%s" % iseed)
+    c = make_conn()
+    c.w.yields = rng.choice([1, 1, 2, 3])
+    sent = [0]
+
+    def msg():
+        size = rng.choice([10, 10, 300, 4096, 65400, 65536, 70000, 131072, 200000]) if rng.random() < 0.5 else rng.randint(1, 200)
+        return FIXMessage(rng.choice(["B", "D", "0"]), {58: rng.choice(["x", "\xe9", "="]) * size, 11: "id%d" % rng.randint(1, 999)})
+
+    async def sender(k):
+        for _ in range(k):
+            try:
+                await c.send_msg(msg())
+                sent[0] += 1
+            except Exception:  # noqa
+                pass
+            for _ in range(rng.randint(0, 2)):
+                await asyncio.sleep(0)
+
+    async def run():
+        await asyncio.gather(*[sender(rng.randint(1, 4)) for _ in range(rng.randint(2, 4))])
+
+    asyncio.run(run())
+    return c.w.out, sent[0]
+
+
+def check_interleave(iseed, failures):
+    writes, sent = interleave(iseed)
+    bad = None
+    for w in writes:
+        fields, why = K.ref_parse_strict(w)
+        if fields is None:
+            bad = ("C02-frame-not-one-write:interleave", "a write() call does not carry exactly one frame: " + why)
+            break
+    if bad is None:
+        frames, why = K.split_stream(b"".join(writes))
+        if why is not None:
+            bad = ("C02-stream-not-frames:interleave", "the byte stream of concurrently sending coroutines is not a sequence of frames: " + why)
+        elif len(frames) != sent:
+            bad = ("C02-stream-not-frames:interleave", "%d successful sends but %d frames in the stream" % (sent, len(frames)))
+    else:
+        frames, why2 = K.split_stream(b"".join(writes))
+        if why2 is not None:
+            bad = ("C02-stream-not-frames:interleave", "frames of concurrently sending coroutines are spliced into each other: " + why2)
+    if bad:
+        failures.append({"signature": bad[0], "what": bad[1], "input": {"interleave_seed": iseed},
+                         "observed": "writes=%d sizes=%s" % (len(writes), [len(w) for w in writes][:12])})
+    return len(writes)
+
+
+def check_bridge_case(simpl, bcase, failures):
+    """implementation-only re-run of a session-level step / chain on which model and code disagreed"""
+    from . import bridge_check
+    n = 0
+    for w, unrep in bridge_check.impl_writes(simpl, bcase):
+        n += 1
+        x = classify(w, "session-step")
+        if x:
+            x["input"]["bridge_case"] = bridge_check.case_to_json(bcase)
+            failures.append(x)
+        elif unrep:
+            failures.append({"signature": "C02-unrepresentable-not-refused", "what": "text outside latin-1 was not refused but transmitted",
+                             "input": {"bridge_case": bridge_check.case_to_json(bcase), "where": "session-step"}, "observed": C.cp(w[:300])})
+    return n
+
+
 def oracle(ctx, disagreements, broken):
     impl = K.Impl()
     failures, n_frames = [], 0
-    n = ctx.n(1500, 15000) * (3 if broken else 1)
     rng = ctx.rng
+    first = getattr(ctx, "c02_first", {"cases": [], "sized": [], "bridge": []})
+    # 0. the inputs on which model and code disagreed
+    for case in first["cases"][:200]:
+        n_frames += check_case(impl, case, {"case": case_input(case)}, failures)
+    for sp in first["sized"][:20]:
+        n_frames += check_case(impl, K.sized_case(sp), {"sized": sp}, failures)
+    if first["bridge"]:
+        from . import sess_common as S
+        simpl = S.Impl()
+        try:
+            for bcase in first["bridge"][:50]:
+                n_frames += check_bridge_case(simpl, bcase, failures)
+        finally:
+            simpl.close()
+    # 1. generated messages
+    n = ctx.n(1500, 15000) * (3 if broken else 1)
     for i in range(n):
-        case, mode = gen_case(rng, i)
-        r, f = impl.encode(*case)
-        if f is not None:
-            try:
-                raw = f.encode("latin-1")
-            except UnicodeEncodeError:
-                raw = None
-            if raw is not None:
-                n_frames += 1
-                x = classify(raw, "encode")
-                if x:
-                    x["input"]["case"] = [case[0], K.tok_tree(case[1]), case[2], case[3], case[4], case[5]]
-                    failures.append(x)
-        if mode != "raw" and case[4] < 2**62:
-            r2, writes = impl_send(case)
-            for w in writes:
-                n_frames += 1
-                x = classify(w, "send_msg")
-                if x:
-                    x["input"]["case"] = [case[0], K.tok_tree(case[1]), case[2], case[3], case[4], case[5]]
-                    failures.append(x)
-            if f is not None and any(ord(ch) > 255 for ch in f):
-                # not representable: must be refused, number given back
-                if not r2.startswith("err EncodingError %d" % case[4]):
-                    failures.append({"signature": "C02-unrepresentable-not-refused", "what": "non latin-1 text was not refused "
-                                     "with EncodingError / number not given back", "input": {"case": [case[0], K.tok_tree(case[1]), case[2], case[3], case[4], case[5]]},
-                                     "observed": r2[:200]})
-    nh = ctx.n(150, 1500)
+        case, mode = gen_case(rng, i, wide=True)
+        n_frames += check_case(impl, case, {"case": case_input(case)}, failures)
+    # 2. sizes (incl. 1 MiB: implementation only)
+    specs = size_specs(rng, ctx.tier, model=False)
+    for sp in specs:
+        n_frames += check_case(impl, K.sized_case(sp), {"sized": sp}, failures)
+    # 3. histories, 4. concurrent senders
+    nh = ctx.n(150, 1500) * (2 if broken else 1)
     for _ in range(nh):
-        for w in history(rng):
-            n_frames += 1
-            x = classify(w, "history")
-            if x:
-                failures.append(x)
-    ctx.oracle_stats = {"frames_parsed_by_reference_parser": n_frames, "histories": nh, "failures": len(failures)}
+        n_frames += check_history(rng.randrange(1 << 40), failures)
+    ni = ctx.n(25, 250) * (2 if broken else 1)
+    for _ in range(ni):
+        n_frames += check_interleave(rng.randrange(1 << 40), failures)
+    ctx.oracle_stats = {"frames_parsed_by_reference_parser": n_frames, "histories": nh, "interleavings": ni, "sized": len(specs),
+                        "replayed_disagreements": sum(len(v) for v in first.values()), "failures": len(failures),
+                        "value_classes_and_sizes": dict(sorted(STATS.items()))}
     return failures
 
 
 def replay(ctx, rp):
-    raw = C.uncp(rp["input"]["frame"]).encode("latin-1") if "frame" in rp["input"] else None
-    if raw is not None:
-        # re-derive: re-run the generating case when present, else judge the recorded frame
-        case = rp["input"].get("case")
-        if case:
-            impl = K.Impl()
-            # the tree is stored in token form; rebuild through the driver-independent parser below
-            tree = parse_tok_tree(case[1])
-            r, f = impl.encode(case[0], tree, case[2], case[3], case[4], case[5], NOW)
-            print("replay encode ->", r[:200])
-            if f is not None:
-                try:
-                    fields, why = K.ref_parse(f.encode("latin-1"))
-                except UnicodeEncodeError:
-                    fields, why = [], None
-                return fields is None
-        fields, why = K.ref_parse(raw)
+    inp = rp["input"]
+    failures = []
+    if "history_seed" in inp:
+        check_history(inp["history_seed"], failures)
+    elif "interleave_seed" in inp:
+        check_interleave(inp["interleave_seed"], failures)
+    elif "bridge_case" in inp:
+        from . import bridge_check
+        from . import sess_common as S
+        simpl = S.Impl()
+        try:
+            check_bridge_case(simpl, bridge_check.case_from_json(inp["bridge_case"]), failures)
+        finally:
+            simpl.close()
+    elif "sized" in inp:
+        check_case(K.Impl(), K.sized_case(inp["sized"]), {"sized": inp["sized"]}, failures)
+    elif "case" in inp:
+        case = inp["case"]
+        tree = parse_tok_tree(case[1])
+        check_case(K.Impl(), (case[0], tree, case[2], case[3], case[4], case[5], NOW), {"case": case}, failures)
+    elif "frame" in inp:
+        raw = C.uncp(inp["frame"]).encode("latin-1")
+        fields, why = K.ref_parse_strict(raw)
         print("recorded frame:", why)
         return fields is None
-    return True
+    for f in failures[:3]:
+        print("replay ->", f["signature"], "|", str(f.get("observed"))[:200])
+    return bool(failures)
 
 
 def parse_tok_tree(tok):
